@@ -120,8 +120,11 @@ type lexer struct {
 	mode   mode
 	last   token // The last emitted token
 	parens int   // Number of open parenthesis
-	width  int   // Number of bytes consumed by the last call to next
-	raw    bool  // True while lexing a verbatim tag; its body is not tokenized
+	// Kinds of the open brackets, innermost last: a "}}" directly inside a hash
+	// literal closes that hash (and its parent), not the print statement.
+	brackets []byte
+	width    int  // Number of bytes consumed by the last call to next
+	raw      bool // True while lexing a verbatim tag; its body is not tokenized
 
 	done     chan struct{} // Closed when nobody will read tokens any more
 	stopOnce sync.Once
@@ -289,8 +292,8 @@ func lexExpression(l *lexer) stateFn {
 		}
 		return lexTagClose
 
-	case strings.HasPrefix(l.input[l.pos:], delimClosePrint),
-		strings.HasPrefix(l.input[l.pos:], delimTrimWhitespace+delimClosePrint):
+	case !l.inHash() && (strings.HasPrefix(l.input[l.pos:], delimClosePrint) ||
+		strings.HasPrefix(l.input[l.pos:], delimTrimWhitespace+delimClosePrint)):
 		if l.pos > l.start {
 			return l.errorf("pos > start, previous token not emitted?")
 		}
@@ -442,15 +445,15 @@ func lexString(l *lexer) stateFn {
 			l.mode = modeInterpolate
 			// Brackets opened around the string must not hide the closing
 			// brace of the interpolation.
-			parens := l.parens
-			l.parens = 0
+			parens, brackets := l.parens, l.brackets
+			l.parens, l.brackets = 0, nil
 			for ins := lexExpression; ins != nil; {
 				ins = ins(l)
 			}
 			if l.mode == modeClosed {
 				return nil
 			}
-			l.parens = parens
+			l.parens, l.brackets = parens, brackets
 			l.mode = modeNormal
 			l.emit(tokenInterpolateClose)
 		}
@@ -485,7 +488,13 @@ func lexOpenParens(l *lexer) stateFn {
 		return l.errorf("unknown parenthesis")
 	}
 	l.parens++
+	l.brackets = append(l.brackets, l.input[l.pos-1])
 	return lexExpression
+}
+
+// inHash reports whether the innermost open bracket is that of a hash literal.
+func (l *lexer) inHash() bool {
+	return len(l.brackets) > 0 && l.brackets[len(l.brackets)-1] == '{'
 }
 
 func lexCloseParens(l *lexer) stateFn {
@@ -506,6 +515,9 @@ func lexCloseParens(l *lexer) stateFn {
 		return l.errorf("invalid parenthesis")
 	}
 	l.parens--
+	if len(l.brackets) > 0 {
+		l.brackets = l.brackets[:len(l.brackets)-1]
+	}
 	return lexExpression
 }
 
